@@ -1,10 +1,18 @@
 #!/usr/bin/env python3
 """Generator for /verif/kani/eval_matrix.rs (property C16, operator typing matrix).
 
-Writes Kani contract harnesses for eval::apply_binary_operation covering
-15 operators x 8 lhs kinds x 8 rhs kinds.  One harness per (operator, lhs kind), named
-c16_<op>_<lhskind>, runs the 8 rhs cells of that row in sequence.  Value kinds are concrete
-per cell, scalar payloads are symbolic, containers are empty, nothing is dropped.
+Writes Kani contract harnesses for eval::apply_binary_operation covering the full matrix
+15 operators x 8 lhs kinds x 8 rhs kinds = 960 cells, ONE HARNESS PER CELL, named
+c16_<op>_<lhskind>_<rhskind>.  Value kinds are concrete per cell, scalar payloads are symbolic
+(kani::any()), containers are empty, nothing is dropped (mem::forget).
+
+Why one cell per harness (measured, Kani 0.68 / CBMC 6.11, this crate): a cell costs ~3 s (in
+domain) / ~6 s (out of domain) of symbolic execution -- every move of the ~150-variant `Error`
+enum is ~1900 SSA steps -- plus ~8 s fixed cost per harness (goto-cc, goto-instrument, CBMC
+start-up).  Putting cells in sequence in one harness is super-linear (1 cell 6 s, 2 cells 13-15 s,
+4 cells 31-40 s, 8 cells 85-120 s of symex), so the CPU time per cell is the same (~14 s) for
+1, 2 or 4 cells per harness and worse for 8; one cell per harness gives the best parallelism and
+pin-points the failing cell.
 
 The output is deterministic (no timestamps, fixed iteration order) so it can be committed; the
 driver re-runs this script before building (GENERATORS in /verif/lib/props_c16.py).
@@ -56,8 +64,8 @@ REFEQ = ("RefEq", "RefNe")
 
 
 def domain(op, lk, rk):
-    """None if (lk, rk) is outside the documented domain of `op`, else the documented result:
-    'int' (Int or located IntOverflow), 'intonly'... see RESULT_PATTERN."""
+    """None if (lk, rk) is outside the documented domain of `op`, else the documented result kind
+    ('int' means: Int, or the located IntOverflow diagnostic of C06 -- never a typing diagnostic)."""
     if op == "Sum":
         if lk == rk and lk in ("int", "string", "list"):
             return lk
@@ -83,82 +91,61 @@ RESULT_PATTERN = {"int": "Value::Int(_)", "bool": "Value::Bool(_)", "string": "V
                   "list": "Value::List(_)"}
 
 
-# rhs cells per harness (8 = one harness per (operator, lhs kind) row); must divide 8
-CELLS_PER_HARNESS = 8
+def harness_name(optag, lk, rk):
+    return f"c16_{optag}_{lk}_{rk}"
 
 
-def parts():
-    return len(KINDS) // CELLS_PER_HARNESS
-
-
-def harness_name(optag, lk, part=0):
-    if parts() == 1:
-        return f"c16_{optag}_{lk}"
-    return f"c16_{optag}_{lk}_{part}"
-
-
-def part_kinds(part):
-    return list(enumerate(KINDS))[part * CELLS_PER_HARNESS:(part + 1) * CELLS_PER_HARNESS]
+def cells():
+    """[(optag, op, sym, lk, rk)] in file order."""
+    return [(t, op, sym, lk, rk) for (t, op, sym) in OPS for lk in KINDS for rk in KINDS]
 
 
 def harness_names():
-    return [harness_name(t, lk, p) for (t, _, _) in OPS for lk in KINDS for p in range(parts())]
+    return [harness_name(t, lk, rk) for (t, _, _, lk, rk) in cells()]
 
 
-def payload_inputs(kind, side, idx):
+def payload_inputs(kind, name):
     """[(name, type)] of the kani::any() calls made when constructing a value of `kind`."""
     if kind == "bool":
-        return [(f"{side}{idx}", "bool")]
+        return [(name, "bool")]
     if kind == "int":
-        return [(f"{side}{idx}", "i64")]
+        return [(name, "i64")]
     if kind == "string":
-        return [(f"{side}{idx}", "u8")]
+        return [(name, "u8")]
     return []
 
 
-def inputs_for(optag, lk, part=0):
-    """kani::any() call order of harness c16_<optag>_<lk>[_<part>] (for counterexample decoding)."""
-    ins = [("l", "usize"), ("c", "usize")]
-    for i, rk in part_kinds(part):
-        ins += payload_inputs(lk, "a", i)
-        ins += payload_inputs(rk, "b", i)
-    return ins
+def inputs_for(lk, rk):
+    """kani::any() call order of a cell harness (for counterexample decoding)."""
+    return [("l", "usize"), ("c", "usize")] + payload_inputs(lk, "a") + payload_inputs(rk, "b")
 
 
-def construct(kind):
-    if kind == "null":
-        return "Value::Null"
-    if kind == "bool":
-        return "Value::Bool(kani::any())"
-    if kind == "int":
-        return "Value::Int(kani::any())"
-    if kind == "string":
-        return "Value::Str(vec![kani::any::<u8>()])"
-    if kind == "list":
-        return "Value::List(Arc::new(Mutex::new(vec![])))"
-    if kind == "object":
-        return "Value::Object(Arc::new(Mutex::new(BTreeMap::new())))"
-    if kind == "func":
-        return "mk_user_func()"
-    if kind == "builtin":
-        return "mk_builtin()"
-    raise ValueError(kind)
+CONSTRUCT = {
+    "null": "Value::Null",
+    "bool": "Value::Bool(kani::any())",
+    "int": "Value::Int(kani::any())",
+    "string": "Value::Str(vec![kani::any::<u8>()])",
+    "list": "Value::List(Arc::new(Mutex::new(vec![])))",
+    "object": "Value::Object(Arc::new(Mutex::new(BTreeMap::new())))",
+    "func": "mk_user_func()",
+    "builtin": "mk_builtin()",
+}
 
-
-PRELUDE = '''\
-// GENERATED by /verif/kani/gen_matrix.py -- do not edit by hand; re-run the generator.
+PRELUDE = r'''// GENERATED by /verif/kani/gen_matrix.py -- do not edit by hand; re-run the generator.
 // Property C16: operator typing matrix for eval::apply_binary_operation.
-// 15 operators x 8 lhs kinds x 8 rhs kinds; one harness per (operator, lhs kind), 8 rhs cells each.
+// 15 operators x 8 lhs kinds x 8 rhs kinds = 960 cells, one harness per cell:
+//   c16_<op>_<lhs kind>_<rhs kind>
+// kinds: null bool int string list object func (user function) builtin (builtin function).
 // Child module of `eval` (injected with #[cfg(kani)] #[path] mod), so private fns are visible.
-#![allow(unused_imports, dead_code, clippy::all)]
+#![allow(unused_imports, dead_code, unused_macros, clippy::all)]
 use super::*;
 
 pub fn fmt_stub(_args: core::fmt::Arguments<'_>) -> String {
     String::new()
 }
 
-// Contracts of the std division primitives (nondet result where defined); the typing clause
-// checked here does not depend on the quotient, see eval_arith.rs (C06) for the value contract.
+// Contracts of the std division primitives (nondet result where defined).  The typing clause
+// checked here does not depend on the quotient; see eval_arith.rs (C06) for the value contract.
 pub fn checked_div_stub(a: i64, b: i64) -> Option<i64> {
     if b == 0 || (a == i64::MIN && b == -1) {
         None
@@ -207,10 +194,10 @@ fn mk_user_func() -> Value {
 // A builtin function value.  `Value` is niche-encoded: every other variant stores a constant tag
 // in the first word, but for BuiltinFunc that word is the capacity of `name`, and CBMC does not
 // constant-fold it out of the freshly built union literal (the literal contains the address of
-// `trivial_builtin`), which makes the value's kind symbolic and lets symex wander into the
-// container arms (measured: does not terminate).  Rewriting `name` in place through the variant
-// makes the first word a plain constant again.  Semantically this is just
-// `Value::BuiltinFunc{name: "b", f: trivial_builtin}`.
+// `trivial_builtin`).  That makes the kind of the value symbolic and lets symex wander into the
+// container arms (measured: `builtin + []` does not terminate).  Rewriting `name` in place
+// through the variant makes the first word a plain constant again (measured: 6 s).
+// Semantically this is just `Value::BuiltinFunc{name: "b", f: trivial_builtin}`.
 fn mk_builtin() -> Value {
     let mut v = Value::BuiltinFunc{name: String::new(), f: trivial_builtin};
     match &mut v {
@@ -218,6 +205,135 @@ fn mk_builtin() -> Value {
         _ => unreachable!(),
     }
     v
+}
+
+// ---------------------------------------------------------------------------------------------
+// The contract of one cell.
+//
+// out of the documented domain: the result is Err(AtLoc{source, line, col}) at the operator's
+// location, and `source` is the typing diagnostic naming the same operator and both operand
+// types in order.  InvalidOpTypes carries the operand values (rendered with render_type, whose
+// names are checked in typefn_names.rs); InvalidEqOpTypes carries the rendered names.
+// ---------------------------------------------------------------------------------------------
+macro_rules! cell_rejected {
+    ($name:ident, $op:ident, $lhs:expr, $rhs:expr, $lpat:pat, $rpat:pat, $cover:literal) => {
+        #[kani::proof]
+        #[kani::unwind(2)]
+        #[kani::stub(alloc::fmt::format, fmt_stub)]
+        fn $name() {
+            let l: usize = kani::any();
+            let c: usize = kani::any();
+            let op = BinaryOp::$op;
+            let loc = (l, c);
+            let lhs = $lhs;
+            let rhs = $rhs;
+            let r = apply_binary_operation(&op, &loc, &lhs, &rhs);
+            kani::cover!(matches!(&r, Err(_)), $cover);
+            match &r {
+                Err(Error::AtLoc{source, line, col}) => {
+                    assert!(*line == l && *col == c, "type_error_at_operator_location");
+                    match &**source {
+                        Error::InvalidOpTypes{op: eop, lhs: el, rhs: er} => {
+                            assert!(matches!(eop, BinaryOp::$op), "type_error_names_the_operator");
+                            assert!(matches!(el, $lpat) && matches!(er, $rpat), "type_error_names_operand_types_in_order");
+                        },
+                        _ => assert!(false, "out_of_domain_operands_get_a_type_diagnostic"),
+                    }
+                },
+                _ => assert!(false, "out_of_domain_operands_are_rejected"),
+            }
+            std::mem::forget(r);
+            std::mem::forget(lhs);
+            std::mem::forget(rhs);
+        }
+    };
+}
+
+macro_rules! cell_rejected_eq {
+    ($name:ident, $op:ident, $lhs:expr, $rhs:expr, $lname:ident, $rname:ident, $cover:literal) => {
+        #[kani::proof]
+        #[kani::unwind(2)]
+        #[kani::stub(alloc::fmt::format, fmt_stub)]
+        fn $name() {
+            let l: usize = kani::any();
+            let c: usize = kani::any();
+            let op = BinaryOp::$op;
+            let loc = (l, c);
+            let lhs = $lhs;
+            let rhs = $rhs;
+            let r = apply_binary_operation(&op, &loc, &lhs, &rhs);
+            kani::cover!(matches!(&r, Err(_)), $cover);
+            match &r {
+                Err(Error::AtLoc{source, line, col}) => {
+                    assert!(*line == l && *col == c, "type_error_at_operator_location");
+                    match &**source {
+                        Error::InvalidEqOpTypes{op: eop, lhs_type, rhs_type, ..} => {
+                            assert!(matches!(eop, BinaryOp::$op), "type_error_names_the_operator");
+                            assert!($lname(lhs_type) && $rname(rhs_type), "type_error_names_operand_types_in_order");
+                        },
+                        _ => assert!(false, "out_of_domain_operands_get_a_type_diagnostic"),
+                    }
+                },
+                _ => assert!(false, "out_of_domain_operands_are_rejected"),
+            }
+            std::mem::forget(r);
+            std::mem::forget(lhs);
+            std::mem::forget(rhs);
+        }
+    };
+}
+
+// in the documented domain, non-arithmetic result: Ok(v) with v of the documented kind.
+macro_rules! cell_accepted {
+    ($name:ident, $unwind:literal, $op:ident, $lhs:expr, $rhs:expr, $respat:pat, $cover:literal) => {
+        #[kani::proof]
+        #[kani::unwind($unwind)]
+        #[kani::stub(alloc::fmt::format, fmt_stub)]
+        fn $name() {
+            let l: usize = kani::any();
+            let c: usize = kani::any();
+            let op = BinaryOp::$op;
+            let loc = (l, c);
+            let lhs = $lhs;
+            let rhs = $rhs;
+            let r = apply_binary_operation(&op, &loc, &lhs, &rhs);
+            kani::cover!(matches!(&r, Ok(_)), $cover);
+            match &r {
+                Ok($respat) => {},
+                Ok(_) => assert!(false, "result_kind_is_documented"),
+                Err(_) => assert!(false, "in_domain_operands_are_accepted"),
+            }
+            std::mem::forget(r);
+            std::mem::forget(lhs);
+            std::mem::forget(rhs);
+        }
+    };
+}
+
+// in the documented domain, integer arithmetic: Ok(Int) or the located IntOverflow diagnostic of
+// C06 (result outside 64 bits / undefined quotient) -- never a typing diagnostic.
+macro_rules! arith_body {
+    ($op:ident, $cover:literal) => {{
+        let l: usize = kani::any();
+        let c: usize = kani::any();
+        let op = BinaryOp::$op;
+        let loc = (l, c);
+        let lhs = Value::Int(kani::any());
+        let rhs = Value::Int(kani::any());
+        let r = apply_binary_operation(&op, &loc, &lhs, &rhs);
+        kani::cover!(matches!(&r, Ok(_)), $cover);
+        match &r {
+            Ok(Value::Int(_)) => {},
+            Ok(_) => assert!(false, "result_kind_is_documented"),
+            Err(Error::AtLoc{source, ..}) => {
+                assert!(matches!(&**source, Error::IntOverflow{..}), "in_domain_operands_are_accepted");
+            },
+            Err(_) => assert!(false, "in_domain_operands_are_accepted"),
+        }
+        std::mem::forget(r);
+        std::mem::forget(lhs);
+        std::mem::forget(rhs);
+    }};
 }
 
 // loop-free comparison of a diagnostic's type name with a documented name
@@ -232,92 +348,44 @@ def name_fn(name):
             f"}}\n")
 
 
-def cell(optag, op, lk, rk, i):
-    tag = f"{optag}_{lk}_{rk}"
+def cover_name(optag, lk, rk, dom):
+    return f"cover_{optag}_{lk}_{rk}_{'accepted' if dom else 'rejected'}"
+
+
+def cell(optag, op, lk, rk):
+    name = harness_name(optag, lk, rk)
     dom = domain(op, lk, rk)
-    out = []
-    w = out.append
-    w(f"    // cell {i}: {lk} {op} {rk} -- {'in domain, result ' + dom if dom else 'out of domain'}")
-    w("    {")
-    w(f"        let lhs = {construct(lk)};")
-    w(f"        let rhs = {construct(rk)};")
-    w("        let r = apply_binary_operation(&op, &loc, &lhs, &rhs);")
+    cov = cover_name(optag, lk, rk, dom)
+    if dom == "int":
+        stubs = ""
+        if op == "Div":
+            stubs = "#[kani::stub(i64::checked_div, checked_div_stub)]\n"
+        if op == "Mod":
+            stubs = ("#[kani::stub(i64::checked_rem, checked_rem_stub)]\n"
+                     "#[kani::stub(i64::wrapping_rem, wrapping_rem_stub)]\n")
+        return ("#[kani::proof]\n#[kani::unwind(2)]\n#[kani::stub(alloc::fmt::format, fmt_stub)]\n" + stubs +
+                f"fn {name}() {{\n    arith_body!({op}, \"{cov}\")\n}}\n")
     if dom:
-        w(f"        kani::cover!(matches!(&r, Ok(_)), \"cover_{tag}_accepted\");")
-        w("        match &r {")
-        w(f"            Ok({RESULT_PATTERN[dom]}) => {{}},")
-        w("            Ok(_) => assert!(false, \"result_kind_is_documented\"),")
-        if dom == "int":
-            # an arithmetic result outside 64 bits / undefined quotient is reported (C06), it is
-            # not a typing diagnostic; anything else is a rejection of in-domain operands
-            w("            Err(Error::AtLoc{source, ..}) => {")
-            w("                assert!(matches!(&**source, Error::IntOverflow{..}), \"in_domain_operands_are_accepted\");")
-            w("            },")
-        w("            Err(_) => assert!(false, \"in_domain_operands_are_accepted\"),")
-        w("        }")
-    else:
-        w(f"        kani::cover!(matches!(&r, Err(_)), \"cover_{tag}_rejected\");")
-        w("        match &r {")
-        w("            Err(Error::AtLoc{source, line, col}) => {")
-        w("                assert!(*line == l && *col == c, \"type_error_at_operator_location\");")
-        w("                match &**source {")
-        if op in EQ:
-            w("                    Error::InvalidEqOpTypes{op: eop, lhs_type, rhs_type, ..} => {")
-            w(f"                        assert!(matches!(eop, BinaryOp::{op}), \"type_error_names_the_operator\");")
-            w(f"                        assert!(name_is_{TYPE_NAME[lk]}(lhs_type) && name_is_{TYPE_NAME[rk]}(rhs_type), "
-              "\"type_error_names_operand_types_in_order\");")
-            w("                    },")
-        else:
-            w("                    Error::InvalidOpTypes{op: eop, lhs: el, rhs: er} => {")
-            w(f"                        assert!(matches!(eop, BinaryOp::{op}), \"type_error_names_the_operator\");")
-            w(f"                        assert!(matches!(el, {TYPE_PATTERN[lk]}) && matches!(er, {TYPE_PATTERN[rk]}), "
-              "\"type_error_names_operand_types_in_order\");")
-            w("                    },")
-        w("                    _ => assert!(false, \"out_of_domain_operands_get_a_type_diagnostic\"),")
-        w("                }")
-        w("            },")
-        w("            _ => assert!(false, \"out_of_domain_operands_are_rejected\"),")
-        w("        }")
-    w("        std::mem::forget(r);")
-    w("        std::mem::forget(lhs);")
-    w("        std::mem::forget(rhs);")
-    w("    }")
-    return "\n".join(out) + "\n"
-
-
-def harness(optag, op, lk, part=0):
-    out = []
-    w = out.append
-    w("#[kani::proof]")
-    # `[a, b].concat()` in the Sum arm iterates over its two operands: bound 3 covers it
-    w("#[kani::unwind(3)]" if op == "Sum" else "#[kani::unwind(2)]")
-    w("#[kani::stub(alloc::fmt::format, fmt_stub)]")
-    if lk == "int" and op == "Div":
-        w("#[kani::stub(i64::checked_div, checked_div_stub)]")
-    if lk == "int" and op == "Mod":
-        w("#[kani::stub(i64::checked_rem, checked_rem_stub)]")
-        w("#[kani::stub(i64::wrapping_rem, wrapping_rem_stub)]")
-    w(f"fn {harness_name(optag, lk, part)}() {{")
-    w("    let l: usize = kani::any();")
-    w("    let c: usize = kani::any();")
-    w(f"    let op = BinaryOp::{op};")
-    w("    let loc = (l, c);")
-    body = "\n".join(out) + "\n"
-    for i, rk in part_kinds(part):
-        body += cell(optag, op, lk, rk, i)
-    body += "}\n"
-    return body
+        # `[a, b].concat()` in the Sum arm iterates over its two operands: bound 3 covers it
+        unwind = 3 if op == "Sum" else 2
+        return (f"cell_accepted!({name}, {unwind}, {op}, {CONSTRUCT[lk]}, {CONSTRUCT[rk]}, "
+                f"{RESULT_PATTERN[dom]}, \"{cov}\");\n")
+    if op in EQ:
+        return (f"cell_rejected_eq!({name}, {op}, {CONSTRUCT[lk]}, {CONSTRUCT[rk]}, "
+                f"name_is_{TYPE_NAME[lk]}, name_is_{TYPE_NAME[rk]}, \"{cov}\");\n")
+    return (f"cell_rejected!({name}, {op}, {CONSTRUCT[lk]}, {CONSTRUCT[rk]}, "
+            f"{TYPE_PATTERN[lk]}, {TYPE_PATTERN[rk]}, \"{cov}\");\n")
 
 
 def generate():
     out = [PRELUDE]
     for n in ["null", "bool", "int", "string", "list", "object", "func"]:
         out.append(name_fn(n))
-    for (optag, op, _sym) in OPS:
-        out.append(f"\n// ---------------------------------------------------------------- {op}\n")
+    for (optag, op, sym) in OPS:
+        out.append(f"\n// ---------------------------------------------------------------- {op}  `{sym}`\n")
         for lk in KINDS:
-            for p in range(parts()):
-                out.append("\n" + harness(optag, op, lk, p))
+            for rk in KINDS:
+                out.append(cell(optag, op, lk, rk))
     return "".join(out)
 
 
